@@ -559,9 +559,29 @@ func createSwitchStatementChunks(stmt *ast.SwitchStatement, statementIndex int, 
 			// bodies, we want to completely omit even rendering the switch statement because
 			// it's a no-op. By early-returning here, we avoid adding the switch branchBehavior,
 			// which will result in the switch not being rendered in the output.
-			if len(branchCases) == 0 {
+			if len(branchCases) == 0 && !processedDefaultCase {
 				return remainingChunks, &jump{destChunkID: switchChunk.id}, returnID
 			}
+			if processedDefaultCase {
+				// The remaining cases have no body: they must leave the switch
+				// instead of falling into the default case.
+				*chunkCounter++
+				exitChunk := &chunk{
+					id:         *chunkCounter,
+					returnID:   returnID,
+					statements: []ast.Statement{},
+				}
+				remainingChunks = append(remainingChunks, exitChunk)
+				for ; i < len(stmt.Cases); i++ {
+					if !stmt.Cases[i].IsDefault {
+						branchCases = append(branchCases, &switchCaseBranch{
+							comparisonValue: stmt.Cases[i].Value,
+							destChunkID:     exitChunk.id,
+						})
+					}
+				}
+			}
+			break
 		} else if !stmt.Cases[i].IsDefault {
 			branchCases = append(branchCases, &switchCaseBranch{
 				comparisonValue: stmt.Cases[i].Value,
